@@ -30,8 +30,9 @@ type Inst struct {
 	Race       bool // happens-before race check
 	MaxSched   int
 	Note       string
-	NoNative   bool // concurrency harness: no deterministic native replay
-	RandChoice bool // math/rand.Float64 = one of {0, 0.5, 0.9999999} instead of a symbolic float
+	NoNative   bool     // concurrency harness: no deterministic native replay
+	KnownRaces []string // substrings of race descriptions listed as known findings
+	RandChoice bool     // math/rand.Float64 = one of {0, 0.5, 0.9999999} instead of a symbolic float
 }
 
 func (i Inst) Key() string { return fmt.Sprintf("%s.%s%v", i.Pkg, i.Fn, i.Args) }
@@ -63,6 +64,7 @@ type instResult struct {
 	Decisions int
 	Uncertain int
 	Elapsed   float64
+	Races     map[string]bool
 }
 
 type workItem struct {
@@ -211,7 +213,7 @@ func explore(l *loaded, insts []Inst, opt options) ([]*instResult, runStats, err
 					e = exec.New(l.World, s, exec.Config{})
 				}
 				e.Cfg = exec.Config{Unwind: ir.Inst.Unwind, ContextBound: ir.Inst.Ctx, RaceCheck: ir.Inst.Race,
-					MaxSched: ir.Inst.MaxSched, Trace: opt.trace, MaxSteps: 4000000, RandChoice: ir.Inst.RandChoice}
+					MaxSched: ir.Inst.MaxSched, Trace: opt.trace, MaxSteps: 4000000, RandChoice: ir.Inst.RandChoice, KnownRaces: ir.Inst.KnownRaces}
 				if e.Cfg.Unwind == 0 {
 					e.Cfg.Unwind = 1200
 				}
@@ -229,6 +231,12 @@ func explore(l *loaded, insts []Inst, opt options) ([]*instResult, runStats, err
 				}
 				if out.Uncertain {
 					ir.Uncertain++
+				}
+				for _, kr := range out.KnownRaces {
+					if ir.Races == nil {
+						ir.Races = map[string]bool{}
+					}
+					ir.Races[kr] = true
 				}
 				switch out.Kind {
 				case "ok":
@@ -555,6 +563,19 @@ func runCheck(prop, tier string, opt options) int {
 	violations := 0
 	knownSeen := map[string]bool{}
 	var out []string
+	for _, r := range results {
+		for race := range r.Races {
+			o := exec.Outcome{Kind: "race", Detail: race}
+			if kf := matchFinding(known, prop, r.Inst, o); kf != nil {
+				if !knownSeen[kf.What] {
+					out = append(out, fmt.Sprintf("KNOWN-FINDING: property=%s %s", prop, kf.What))
+					knownSeen[kf.What] = true
+				}
+			} else {
+				inconclusive = append(inconclusive, "race tolerated by the instance but not listed in known_findings.json: "+race)
+			}
+		}
+	}
 	os.MkdirAll(filepath.Join(verifDir, "replays", prop), 0o755)
 	// clean old replay files of this property
 	old, _ := filepath.Glob(filepath.Join(verifDir, "replays", prop, "*.json"))
